@@ -712,11 +712,26 @@ func (c *Ctx) ParamsDoc(withPathVars bool, withBodies ...bool) *Doc {
 			nv := rapid.IntRange(1, 2).Draw(t, "npathvars")
 			for j := 0; j < nv; j++ {
 				name := c.PlainName("v", "var")
+				if rapid.IntRange(0, 5).Draw(t, "lit_named_like_var") == 0 {
+					segs = append(segs, name) // /tag/{tag}
+					c.Tag("path:constant-equals-variable-name")
+				}
 				segs = append(segs, "{"+name+"}")
 				prim := c.maybeLayout(rapid.SampledFrom(PathVarPrims).Draw(t, "pathvar_prim"), "pathvar_prim")
 				pathVars = append(pathVars, &Parameter{Name: name, In: "path", Required: true, Schema: prim.Schema()})
-				if rapid.Bool().Draw(t, "lit_between") {
+				switch rapid.IntRange(0, 5).Draw(t, "lit_between") {
+				case 0, 1, 2:
 					segs = append(segs, constSeg("s"))
+				case 3:
+					// a constant segment spelled like the variable before it (/{tag}/tag)
+					segs = append(segs, name)
+					c.Tag("path:constant-equals-variable-name")
+				}
+			}
+			// declaration order is independent of template order
+			if len(pathVars) > 1 && rapid.Bool().Draw(t, "reverse_vars") {
+				for i, j := 0, len(pathVars)-1; i < j; i, j = i+1, j-1 {
+					pathVars[i], pathVars[j] = pathVars[j], pathVars[i]
 				}
 			}
 		}
